@@ -3,19 +3,19 @@ CONSTANTS
  Ids = {"a", "b"}
  MaxB = 2
  BatchShapes <- Shapes3
- Writers = {w1, w2}
- Safe = FALSE
+ Writers = {w1}
+ Safe = TRUE
  KeepN = 1
- MaxEp = 7
+ MaxEp = 8
  MaxSid = 5
  WithReader = FALSE
  WithCopy = FALSE
  WithMerger = TRUE
- WithPurge = FALSE
+ WithPurge = TRUE
  WithMemMerge = TRUE
  MaxMergeInputs = 2
- AsyncRelease = FALSE
+ AsyncRelease = TRUE
 CONSTRAINT Bound
-INVARIANTS RootIsReplay UniqueLive HeldAreReplays EveryBoltIsAState Durable BoltFilesOnDisk RootFilesOnDisk
+INVARIANTS RootIsReplay UniqueLive HeldAreReplays EveryBoltIsAState Durable NewestLoads BoltFilesOnDisk RootFilesOnDisk NoOrphansWhenQuiescent RollbackOK
 PROPERTIES LayoutStutters ReaderStable
 CHECK_DEADLOCK FALSE
